@@ -784,11 +784,31 @@ Definition repl_in_language (toks : list tok) : bool :=
   | _ => false
   end.
 
+(* same, up to the order of the tokens: the parser accepts the groups of one node also when another node's groups lie
+   between them, which no printer output does; the vector is then a rearrangement of the printer output for its parse *)
+Definition count_tok (t : tok) (l : list tok) : nat := length (filter (bytes_eqb t) l).
+Definition same_tokens (a b : list tok) : bool :=
+  Nat.eqb (length a) (length b) && forallb (fun t => Nat.eqb (count_tok t a) (count_tok t b)) a.
+
+Definition in_language_regrouped (unpack : tok -> option pcm_data) (toks : list tok) : bool :=
+  match parse_pcm unpack toks with
+  | Ok (m, true) => same_tokens (pcm_to_args (config_order toks) m) toks
+  | _ => false
+  end.
+
 (* the flags slot holds something the printer never emits; ClusterMapFlags::from_arg accepts it as "no flag" *)
+Definition flag_tok_unrecognized (f : tok) : bool :=
+  negb (bytes_eqb f kw_NOFLAG || bytes_eqb f kw_FORCE || bytes_eqb f kw_COMPRESS || bytes_eqb f kw_FORCE_COMPRESS).
+
 Definition flags_token_unrecognized (toks : list tok) : bool :=
   match toks with
-  | _ :: _ :: f :: _ =>
-    negb (bytes_eqb f kw_NOFLAG || bytes_eqb f kw_FORCE || bytes_eqb f kw_COMPRESS || bytes_eqb f kw_FORCE_COMPRESS)
+  | _ :: _ :: f :: _ => flag_tok_unrecognized f
+  | _ => false
+  end.
+
+Definition repl_flags_token_unrecognized (toks : list tok) : bool :=
+  match toks with
+  | _ :: f :: _ => flag_tok_unrecognized f
   | _ => false
   end.
 
